@@ -3,10 +3,17 @@
     the decoder's shift/mask arithmetic, for every position and width. (2) An integer
     written as n bytes in either byte order is read back unchanged.  The lift to whole
     declarations is established by the correspondence check (encode_to_vec ->
-    decode_full on every generated well-formed value): `_partial`. *)
+    decode_full on every generated well-formed value): `_partial`.
+    (3) WHOLE DECLARATIONS of the bit-field fragment (root packets / structs whose fields
+    are scalars, enum typedefs, fixed fields and reserved bits in ANY composition):
+    decode (encode v ++ tl) = (v, tl) for every value the reference can encode, with the
+    schema the analyzer really computes and enums the analyzer accepts -- a complete
+    statement of the property on that fragment (Proofs/RoundTrip.v). *)
 From Coq Require Import NArith List String Bool.
 From Coq Require Import Strings.Byte.
-From PDL Require Import Base.Bits Proofs.Pack.
+From PDL Require Import Base.Bits Base.Outcome Lang.Ast Lang.Sexp Analyzer.Schema Analyzer.Passes Rust.Enum
+     Sem.RefEncode Rust.Encode Rust.Decode Proofs.Pack Proofs.BitfieldEncode Proofs.RoundTrip
+     Proofs.SchemaEnums Proofs.RoundTripReal.
 Import ListNotations.
 Open Scope N_scope.
 
@@ -29,3 +36,60 @@ Print Assumptions C02_big_endian_bytes_round_trip_partial.
 
 Example C02_example : extract 4 12 (group_sum [(5, 4); (2748, 12)] 0) = 2748.
 Proof. reflexivity. Qed.
+
+(** Encode then decode is the identity on root declarations of the bit-field fragment.
+    Hypotheses: [sch] is the schema [Schema::new] computes for the file (enum widths fit a
+    usize); every enum of the file passes the analyzer's enum check and is one the Rust
+    generator is defined on; [o] is a value of the generated Rust type (exactly the data
+    fields, in order); the reference has an encoding [bs] for it (scalars within their
+    widths, enum values the enum declares).  Conclusion: the emitted encoder returns [bs],
+    and the emitted decoder run on [bs] followed by ANY bytes [tl] returns [o] and [tl]
+    (so decode_full (encode v) = v, taking tl = []) -- in both byte orders and overflow
+    modes -- unless pdlc refuses the declaration (a bit-field group wider than 64 bits). *)
+Theorem C02_bitfield_declarations_round_trip :
+  forall (fuel fuel' : nat) (oc : bool) (fl : file) (sch : schema) (id : string) (d : decl)
+         (o : list (string * value)) (bs tl : list byte),
+    enum_widths_fit fl = true -> mk_schema fl = Some sch ->
+    enums_accepted fl ->
+    lookup_decl fl id = Some d ->
+    root_of_fragment fl d ->
+    canonical_obj o (decl_fields d) ->
+    ref_encode (S fuel) fl id (VObj o) = Some bs ->
+    match rust_encode (S fuel) fl sch id (VObj o) with
+    | Ok bs' =>
+        bs' = bs /\
+        match rust_decode (S fuel') oc fl sch id (bs' ++ tl) with
+        | Ok r => r = (VObj o, tl)
+        | Panic GenAssert => True
+        | _ => False
+        end
+    | Panic GenAssert => True
+    | _ => False
+    end.
+Proof. exact rust_roundtrip_fragment_real_schema. Qed.
+Print Assumptions C02_bitfield_declarations_round_trip.
+
+(** non-vacuity: a concrete big-endian file (an enum with a range and a default tag, a
+    packet with a 3-bit scalar, the enum, a fixed field, reserved bits and a 24-bit scalar)
+    satisfies every hypothesis, and the round trip computes *)
+Definition c02_file : file :=
+  mkFile BigEndian
+    [DEnum "E" [TagValue "A" 1; TagRange "R" 4 7 [("R4", 4)]; TagOther "O"] 5;
+     DPacket "P" [] [mkField (Scalar "a" 3) None; mkField (Typedef "e" "E") None;
+                     mkField (FixedScalar 4 9) None; mkField (Reserved 4) None;
+                     mkField (Scalar "b" 24) None] None].
+Definition c02_obj : list (string * value) := [("a", VNum 5); ("e", VNum 6); ("b", VNum 66051)].
+
+Example C02_hypotheses_hold :
+  enum_widths_fit c02_file = true
+  /\ (exists sch, mk_schema c02_file = Some sch
+       /\ rust_encode 3 c02_file sch "P" (VObj c02_obj) = Ok [x35; x09; x01; x02; x03]
+       /\ rust_decode 3 true c02_file sch "P" [x35; x09; x01; x02; x03; xff] = Ok (VObj c02_obj, [xff]))
+  /\ (exists d, lookup_decl c02_file "P" = Some d /\ canonical_obj c02_obj (decl_fields d)
+                 /\ forallb (bf_field c02_file) (decl_fields d) = true)
+  /\ ref_encode 3 c02_file "P" (VObj c02_obj) = Some [x35; x09; x01; x02; x03]
+  /\ check_enum_declaration (DEnum "E" [TagValue "A" 1; TagRange "R" 4 7 [("R4", 4)]; TagOther "O"] 5) = [].
+Proof.
+  split; [reflexivity|]. split; [eexists; split; [reflexivity|]; split; reflexivity|].
+  split; [eexists; split; [reflexivity|]; split; reflexivity|]. split; reflexivity.
+Qed.
